@@ -1,7 +1,53 @@
-import Driver.Util
-/- Sub-protocol `C13`: not built yet. -/
+import Driver.Snap
+/-
+Sub-protocol `C13` (SNA save/load round trip). Common requests: see Driver/Snap.lean.
+  save <slot>            -> len= hash= hdr= sec= | spec len= hash= hdr= sec= | eff <obs of the machine afterwards>
+                            (the model's file becomes the current file; `spec` is the file the SNA layout
+                            prescribes for the abstract state of the slot; the spec for the effect is
+                            "unchanged", i.e. `obs <slot>`)
+  specfile <slot>        -> makes the file the layout prescribes the current file; len=
+  load <recv> <dst>      -> ok <obs> | err <kind>  ;  then " | spec <obs>" or " | spec none"
+                            (`snaLoad` of the current file into slot <recv>, result stored in <dst>;
+                            spec = what the file describes, on top of the receiver's abstract state)
+  rt <src> <recv>        -> <obs>: what loading the prescribed file of <src> into <recv> must give
+-/
 namespace Driver.C13
+open ZxVerif.Snap Driver Driver.Snap
 
-def proto : Driver.Proto := { σ := Unit, init := (), handle := fun s _ => (s, "unimplemented") }
+def sec (f : Bytes) : String :=
+  if f.length > 49183 then bytesHex ((f.drop 49179).take 4) else "-"
+
+def fileSummary (f : Bytes) : String :=
+  s!"len={f.length} hash={hex64 (fnv f)} hdr={bytesHex (f.take 27)} sec={sec f}"
+
+def handle (s : St) (req : List String) : St × String :=
+  match common s req with
+  | some r => r
+  | none =>
+    match req with
+    | ["save", i] =>
+      let m := s.slot i
+      let f := snaSave s.fx m
+      let sf := Spec.snaOf (Spec.abs m)
+      ({ s with file := f },
+       fileSummary f ++ " | spec " ++ fileSummary sf ++ " | eff " ++ fmtM (snaSaveEffect s.fx m))
+    | ["specfile", i] =>
+      let sf := Spec.snaOf (Spec.abs (s.slot i))
+      ({ s with file := sf }, s!"len={sf.length}")
+    | ["load", r, d] =>
+      let recv := s.slot r
+      let spec := match Spec.describeSna s.file (Spec.abs recv) with
+        | some a => " | spec " ++ fmtA a
+        | none => " | spec none"
+      match snaLoad s.fx s.file recv with
+      | .ok m => (s.setSlot d m, "ok " ++ fmtM m ++ spec)
+      | .error e => (s, "err " ++ errName e ++ spec)
+    | ["rt", i, r] =>
+      match Spec.describeSna (Spec.snaOf (Spec.abs (s.slot i))) (Spec.abs (s.slot r)) with
+      | some a => (s, fmtA a)
+      | none => (s, "none")
+    | _ => (s, "bad-op")
+
+def proto : Driver.Proto := { σ := St, init := {}, handle := handle }
 
 end Driver.C13
